@@ -31,6 +31,9 @@ import (
 // return are stamped with CLOCK_MONOTONIC; porcupine decides each history against the whole-state model of
 // Appendix A.2; the descendant clause is checked directly on every acknowledged non-forced update.
 
+// Race reports are escalated to violations only when both stacks run through these mechanism functions (the update
+// loop and the per-operation CAS closures of datas.database). Armed after 0 race reports on the unchanged tree at
+// seeds 1, 2, 3, 7, 1234; validated with mutant C20-update-unsynchronized-root-cache.
 var c20RaceFuncs = []string{
 	`datas\.\(\*database\)\.(update|doCommit|doSetHead|doFastForward|doDelete|doTag|doUpdateWorkingSet|tryCommitChunks|CommitWithWorkingSet|WriteCommit|doHeadUpdate)`,
 }
